@@ -267,7 +267,7 @@ pub fn c01(tier: &str, seed: u64, meta: &str) -> Report {
                 32..=35 => SEv::Commit(rng.below(last_len.max(1))),
                 36..=37 => SEv::Finish,
                 38 => SEv::Restart,
-                _ => if idle {
+                _ => if idle && rng.chance(1, 6) { SEv::UpdateDb(!s.opts.database) } else if idle {
                     let nb = if s.phonetic { rng.below(16) as u32 } else { rng.below(1024) as u32 };
                     SEv::Update(nb, match rng.below(4) { 0 => UacEdit::Delete, 1 => UacEdit::Write(vec![("ami".into(), "amra".into())]), 2 => UacEdit::Raw(b"{".to_vec()), _ => UacEdit::Keep })
                 } else { SEv::Finish },
@@ -281,7 +281,7 @@ pub fn c01(tier: &str, seed: u64, meta: &str) -> Report {
                 Out::Panic(p) => { rep.fail(json!({"what": "an in-contract call panicked", "panic": p, "method": if s.phonetic { "phonetic" } else { "fixed" }, "session": s.describe()})); return; }
                 Out::Full { list, .. } => { last_len = list.len(); last_sel_len = list.len(); }
                 Out::Single { .. } => { last_len = 1; last_sel_len = 1; }
-                Out::Unit => { if matches!(e, SEv::Restart | SEv::UpdateLayout(..)) { last_len = 1; last_sel_len = 1; } }
+                Out::Unit => { if matches!(e, SEv::Restart | SEv::UpdateLayout(..) | SEv::UpdateDb(..)) { last_len = 1; last_sel_len = 1; } }
             }
             if dt > 10.0 { rep.fail(json!({"what": "an event took more than 10 seconds", "seconds": dt, "session": s.describe()})); }
             if n % 50 == 0 { rep.nontrivial_key(&format!("{} {}", i, n)); }
